@@ -171,7 +171,7 @@ def run(tier, mode):
             pytrs.TRS._USE_CACHE = True
             MC.default_ns, MC.default_ew = 'n', 'w'
         # ---- oracle: the same probe in a fresh interpreter under the same MasterConfig
-        if i % (1 if tier == 'thorough' else 2) == 0:
+        if True:
             p = subprocess.run([H.PY, '-c', PROBE_CODE % {'tools': tools_dir}], input=json.dumps({'mc': mc_now, 'probe': probe}), text=True,
                                capture_output=True, env=dict(os.environ, PYTHONPATH=H.REPO, PYTHONHASHSEED='0'), timeout=120)
             n_or += 1
